@@ -55,7 +55,10 @@ type DefObs struct {
 	Info     []AttrObs `json:"info,omitempty"`
 	Req      int       `json:"req"`
 	Eq       []string  `json:"eq,omitempty"` // names at the equality attribute indexes, sorted
-	typ      px.Type
+	// Init: the parameter type of the named constructor (createInitType: one Struct member per constructor
+	// attribute, its value type derived by typeAndInit), read from the signature of the first dispatcher
+	Init Ty `json:"init"`
+	typ  px.Type
 }
 
 type GetObs struct {
@@ -213,6 +216,14 @@ func define(c px.Context, d *Def) (obs DefObs) {
 			obs.Eq = append(obs.Eq, ai.Attributes()[ix].Name())
 		}
 		sort.Strings(obs.Eq)
+		obs.Init = Ty{K: "other", N: "<no named constructor>"}
+		if ctor := ot.Constructor(c); ctor != nil {
+			if ds := ctor.Dispatchers(); len(ds) == 2 {
+				if tt, ok := ds[0].Signature().ParametersType().(*types.TupleType); ok && len(tt.Types()) == 1 {
+					obs.Init = parseTy(tt.Types()[0].String())
+				}
+			}
+		}
 	})
 	if code != "" {
 		obs.Accepted, obs.Err, obs.ErrText = false, code, "while reading the attributes info: "+text
